@@ -517,17 +517,44 @@ func registerMisc() {
 		}
 	}
 	srcS := func(a []Val) []int64 { return a[0].L }
+	// a random choice is drawn 40 times on the same arguments; the law judges a draw that breaks "no repetition" if there
+	// is one, the last draw otherwise (a defect that shows on a few per cent of the calls is not left to luck)
+	worstOf := func(draw func() []int64, ok func([]int64) bool) []int64 {
+		var r []int64
+		for k := 0; k < 40; k++ {
+			r = draw()
+			if !ok(r) {
+				return r
+			}
+		}
+		return r
+	}
 	reg("ChooseRandomSliceElementN", "s+,nsel", 1, func(c *cx) []Val {
-		oracle(c, 2, VL(c.out(collection.ChooseRandomSliceElementN(c.S(0), c.I(1)))))
+		src := append([]int64{}, c.S(0)...)
+		oracle(c, 2, VL(c.out(worstOf(func() []int64 { return collection.ChooseRandomSliceElementN(c.S(0), c.I(1)) },
+			func(r []int64) bool { return subMultiset(r, src) }))))
 		return r1(VB(true))
 	}, membersLaw(srcS, true)).orc()
 	reg("ChooseRandomIndexN", "s+,nsel0", 1, func(c *cx) []Val {
-		r := collection.ChooseRandomIndexN(c.S(0), c.I(1))
+		var r []int
+		l := worstOf(func() []int64 {
+			r = collection.ChooseRandomIndexN(c.S(0), c.I(1))
+			l := make([]int64, len(r))
+			for i, x := range r {
+				l[i] = int64(x)
+			}
+			return l
+		}, func(l []int64) bool {
+			seen := map[int64]bool{}
+			for _, x := range l {
+				if seen[x] {
+					return false
+				}
+				seen[x] = true
+			}
+			return true
+		})
 		regOut(c, "the result", r)
-		l := make([]int64, len(r))
-		for i, x := range r {
-			l[i] = int64(x)
-		}
 		oracle(c, 2, VL(l))
 		return r1(VB(true))
 	}, membersLaw(func(a []Val) []int64 {
